@@ -37,6 +37,8 @@ NUMS = [0.0, 1.0, -1.0, 2.0, 3.0, 10.0, 0.5, 1.5, 2.5, -0.5, -2.5, 1.15, 2.675,
         1.005, 4.35, 1.25, 0.1, 123.456, -1.15, 7.0, -3.0, 12345.678, 0.3,
         2.345, 8.0, 100.0, 1e6, -7.5, 3.7, 4.0, 6.0, 9.99]
 TEXTS = ['abc', 'Hello World', '  a  b ', '', 'a-b-c-d', 'aaa', 'AbC', '12',
+         # white space other than the space character (TRIM keeps it)
+         ' first line\nsecond   line ', '\ta  b', 'a\xa0 b ', 'x\r\n',
          'x', 'a?c', 'b*', 'abcabc', ' lead', 'trail ', 'a  b   c', '1.5', 'Q']
 INTS = [0, 1, 2, 3, 4, 5, -1, 7, 10, 1.5, 2.9]
 
@@ -264,15 +266,27 @@ def lit_text(v):
     return '-%s' % s[1:] if s.startswith('-') else s
 
 
-def build(name, args):
+def _np(v):
+    """The numpy twin of a python value: what a referenced cell holds when
+    another function computed it (NOT/AND/OR give numpy.bool_, arithmetic
+    gives numpy.float64)."""
+    if isinstance(v, bool):
+        return np.bool_(v)
+    if isinstance(v, float):
+        return np.float64(v)
+    return v
+
+
+def build(name, args, numpy_refs=False):
     """-> (formula text, inputs dict)"""
     parts, inputs, row = [], {}, 2
+    conv = _np if numpy_refs else (lambda v: v)
     for a in args:
         if a['t'] == 'lit':
             parts.append(lit_text(a['v']))
         elif a['t'] == 'ref':
             refn = 'B%d' % row
-            inputs[refn] = [[sh.EMPTY]] if a['v'] is sh.EMPTY else a['v']
+            inputs[refn] = [[sh.EMPTY]] if a['v'] is sh.EMPTY else conv(a['v'])
             parts.append(refn)
             row += 1
         elif a['t'] == 'rng':
@@ -280,13 +294,13 @@ def build(name, args):
             if (rows, cols) == (1, 1):
                 refn = 'B%d' % row
                 v = a['v'][0][0]
-                inputs[refn] = [[sh.EMPTY]] if v is sh.EMPTY else v
+                inputs[refn] = [[sh.EMPTY]] if v is sh.EMPTY else conv(v)
             else:
                 refn = 'B%d:%s%d' % (row, 'BCDEFGHIJ'[cols - 1], row + rows - 1)
                 arr = np.empty((rows, cols), object)
                 for i, rw in enumerate(a['v']):
                     for j, x in enumerate(rw):
-                        arr[i, j] = x
+                        arr[i, j] = conv(x)
                 inputs[refn] = arr
             parts.append(refn)
             row += rows
@@ -336,9 +350,18 @@ def _vk(v):
     return k
 
 
-def check(name, args, ctx):
+def check(name, args, ctx, numpy_refs=None):
+    import zlib
     formula, inputs = build(name, args)
-    case = {'kind': 'call', 'name': name, 'args': enc_args(args)}
+    if numpy_refs is None:
+        # one case in three: referenced values arrive as numpy scalars
+        numpy_refs = bool(inputs) and zlib.crc32(repr(sorted(
+            (k, xl.show(xl.canon(v))) for k, v in inputs.items())).encode()) % 3 == 0
+    if numpy_refs:
+        formula, inputs = build(name, args, True)
+        ctx.count('numpy-typed-references')
+    case = {'kind': 'call', 'name': name, 'args': enc_args(args),
+            'numpy_refs': numpy_refs}
     ctx.case((formula, sorted((k, xl.show(xl.canon(v))) for k, v in inputs.items())))
     ctx.count('fn.' + name)
     for a in args:
@@ -427,7 +450,7 @@ def plan(tier, seed):
 
 
 def check_case(case, ctx):
-    check(case['name'], dec_args(case['args']), ctx)
+    check(case['name'], dec_args(case['args']), ctx, case.get('numpy_refs'))
 
 
 def run(spec, ctx):
